@@ -249,6 +249,7 @@ impl Prop for Equivalence {
         cfg.max_items = 2 + t.below(10 * crate::driver::scale());
         // also gaps in front of a first base that carries the shared vftable pointer
         cfg.vft_base_anywhere = true;
+        cfg.decorated_gaps = true;
         cfg.base_num = 2;
         let (prog, _, _) = gen_prog(t, cfg);
         let only = if t.chance(1, 4) { Some(t.pick(KINDS).to_string()) } else { None };
